@@ -436,6 +436,56 @@ def sc_fork_snapshot_of_closure(env):
     return {"child_saw": got, "parent_has": data}
 
 
+def sc_thread_queue_roundtrip(env):
+    lq = env.queue.Queue()
+    out = []
+
+    def consumer():
+        while True:
+            item = lq.get()
+            if item is None:
+                break
+            out.append(item * 2)
+            lq.task_done()
+
+    t = env.threading.Thread(target=consumer)
+    t.start()
+    for i in range(4):
+        lq.put(i)
+    lq.join()
+    lq.put(None)
+    t.join()
+    try:
+        lq.get(timeout=0.05)
+        empty = False
+    except env.queue.Empty:
+        empty = True
+    return {"out": out, "alive": t.is_alive(), "empty_after": empty}
+
+
+def w_main_returns_thread_blocks(env, daemon):
+    lq = env.queue.Queue()
+    t = env.threading.Thread(target=lq.get, daemon=daemon)
+    t.start()
+    # the main thread of this process returns now
+
+
+def sc_non_daemon_thread_keeps_process_alive(env):
+    """a process whose main thread has finished does not exit while a non-daemon thread is blocked;
+    with a daemon thread it does"""
+    p1 = env.mp.Process(target=w_main_returns_thread_blocks, args=(env, False))
+    p2 = env.mp.Process(target=w_main_returns_thread_blocks, args=(env, True))
+    p1.start()
+    p2.start()
+    p2.join(timeout=5.0)
+    p1.join(timeout=1.0)
+    res = {"non_daemon_alive": p1.is_alive(), "daemon_code": p2.exitcode}
+    p1.kill()
+    p1.join()
+    res["after_kill"] = p1.exitcode
+    return res
+
+
 def w_sq_child(q, n):
     for i in range(n):
         q.put(i)
@@ -531,7 +581,7 @@ SCENARIOS = [
     sc_normal_exit, sc_exception_flushes, sc_sys_exit_3, sc_sigkill_prefix, sc_get_timeout_empty, sc_per_worker_fifo,
     sc_dead_means_flushed, sc_exitcode_while_alive, sc_terminate, sc_join_before_drain_big, sc_killed_holding_lock,
     sc_torn_frame_blocks_get, sc_pool_map, sc_pool_exception, sc_pool_worker_killed, sc_pool_sys_exit_in_task, sc_pool_close_join,
-    sc_pipe_eof, sc_simplequeue, sc_condition_turns, sc_joinable_queue, sc_reader_lock_leak, sc_pipe_eof_inside_message, sc_sigchld_handler_reaps_child, sc_connection_wait_on_sentinels, sc_fork_snapshot_of_closure,
+    sc_pipe_eof, sc_simplequeue, sc_condition_turns, sc_joinable_queue, sc_reader_lock_leak, sc_pipe_eof_inside_message, sc_sigchld_handler_reaps_child, sc_connection_wait_on_sentinels, sc_fork_snapshot_of_closure, sc_thread_queue_roundtrip, sc_non_daemon_thread_keeps_process_alive,
 ]
 
 
@@ -548,9 +598,14 @@ class RealEnv:
         assert multiprocessing.get_start_method() == "fork"
         import multiprocessing.connection  # noqa: F401
 
+        import queue as _q
+        import threading as _t
+
         self.mp = multiprocessing
         self.os = os
         self.signal = signal
+        self.threading = _t
+        self.queue = _q
 
     def sleep(self, s):
         time.sleep(s)
@@ -647,8 +702,11 @@ class SimEnv:
 
         self.world = world
         self.mp = mod
+        from sim import simthreads
+
         self.os = world_realign.SIM_OS
         self.signal = world_realign.SIM_SIGNAL
+        self.threading, self.queue = simthreads.make_modules()
 
     def __deepcopy__(self, memo):
         return self
